@@ -21,17 +21,20 @@ KAPPA = 1e3           # rounding floor, multiples of eps * local scale at the re
 COVERAGE_MIN = {'central': 0.85, 'forward': 0.85, 'backward': 0.85, 'complex': 0.70,
                 'multicomplex': 0.70}
 Q99_MAX = 100.0
-POOL_MIN = 400
+POOL_MIN = 300
 
 
 def _scaled_exactly(a, b, c):
-    """b == a*c componentwise, ignoring components in (or scaled into) the sub-normal range."""
+    """b == a*c componentwise, ignoring components outside [1e-140, 1e140]."""
     a = np.asarray(a)
     b = np.asarray(b)
     if np.iscomplexobj(a) or np.iscomplexobj(b):
         return (_scaled_exactly(np.real(a), np.real(b), c) and _scaled_exactly(np.imag(a), np.imag(b), c))
-    big = (np.abs(a) > 1e-280) & (np.abs(a * c) > 1e-280)
-    return bool(np.all(b[big] == (a * c)[big]))
+    # exact scaling by 2^k holds as long as no intermediate product under- or overflows: only
+    # components whose squares are comfortably representable are compared
+    with np.errstate(all='ignore'):
+        big = (np.abs(a) > 1e-140) & (np.abs(a * c) > 1e-140) & (np.abs(a) < 1e140) & (np.abs(a * c) < 1e140)
+        return bool(np.all(b[big] == (a * c)[big]))
 
 
 @st.composite
@@ -47,8 +50,8 @@ class C02(Prop):
     rule = ('Case stream of C01 with full_output=True (expression tree, x, method, n in 1..nmax, order 1..8, '
             'step configuration resolved against the certified analyticity radius). k_est = number of '
             'derivative estimates left after the finite-difference rule. Honesty (a) is asserted for '
-            'k_est >= 2; a case is NON-TRIVIAL for (a) iff the true error exceeds the rounding floor '
-            'kappa*eps*(S_n(h_f)+|x|S_{n+1}), i.e. the estimate, not the floor, carried the inequality; '
+            'k_est >= 2; a case is NON-TRIVIAL for (a) iff K*estimate + floor <= |exact|/2, i.e. a '
+            'sign error or a factor 2 in the value would have been flagged as a dishonest estimate; '
             'record consistency (c) is asserted on every case; the metamorphic scaling (d) on a drawn '
             'quarter of the cases with k_est >= 2.  Distinct by (tree, x, method, n, order, step).')
     assumptions = (
@@ -123,16 +126,19 @@ class C02(Prop):
                 raise Violation('finite', 'result %r at x=%r' % (lib, xv), method=method, n=n)
             a = ev.analyses[j]
             hf = float(fstep[j])
-            Sh = a.scale(n, w * hf, w * hf) if hf > 0 else None
             S1 = ev.S1[j]
-            if Sh is None or S1 is None or not (math.isfinite(Sh) and math.isfinite(S1)):
+            # rounding of the rule at the step the library reports having used (validated above):
+            # eps*sup|f|/h^n for rules that difference function values, relative rounding of the
+            # derivative itself for the cancellation-free rules; times sum|rule weights|
+            unit = dc.envelope_unit(a, n, 2 if method == 'multicomplex' else ev.d.method_order, [hf], w,
+                                    dc.difference_forming(method, n, ev.d.order), ev.amp) if hf > 0 else None
+            if unit is None or S1 is None or not math.isfinite(S1):
                 ctx.count('scale unavailable')
                 continue
+            R = unit[2]
             err = abs(lib - ev.exact_f[j])
-            floor = KAPPA * dc.EPS * (Sh + abs(xv) * S1 + abs(ev.exact_f[j]))
+            floor = KAPPA * (R + dc.EPS * (abs(xv) * S1 + abs(ev.exact_f[j])))
             e = float(est[j])
-            if reach_ok and n <= 6 and err > 0 and e > 0:
-                ctx.record('err/est|%s|%s' % (method, 'k1' if ev.k_est < 2 else 'k2+'), err / e)
             if not reach_ok:
                 ctx.count('honesty not asserted: reach > rho/4')
                 continue
@@ -146,7 +152,14 @@ class C02(Prop):
                                 '(floor %.3g) lib=%r exact=%r x=%r f=%s'
                                 % (method, n, order, ev.k_est, err, e, floor, lib, ev.exact_f[j], xv,
                                    exprs.show(case['tree'])), k_est=ev.k_est, ratio=ratio)
-            if err > floor:
+            if n <= 6 and e > 0:
+                # pooled calibration statistic: error beyond 16 rounding units over the estimate
+                kb = 'k1' if ev.k_est < 2 else 'k2+'
+                if err > 16.0 * floor / KAPPA:
+                    ctx.record('err/est|%s|%s' % (method, kb), err / e)     # resolvable errors only
+                else:
+                    ctx.count('pool: error below 16 rounding units|%s|%s' % (method, kb))
+            if K_HONEST * e + floor <= abs(ev.exact_f[j]) / 2:
                 nontrivial = True
         if nontrivial:
             ctx.nontriv(key)
@@ -185,8 +198,6 @@ class C02(Prop):
         v2 = np.asarray(v2).ravel()
         ctx.count('metamorphic checked')
         # sub-normal underflow in intermediate differences can break exactness: require normal range
-        if np.any(e1 * min(c, 1) < 1e-290):
-            return
         if not (_scaled_exactly(vals, v2, c) and _scaled_exactly(e1, e2, c)):
             raise Violation('metamorphic-scale', 'scaling f by 2**%d: value %r -> %r, estimate %r -> %r '
                             '(expected exact scaling)' % (mk, vals.tolist(), v2.tolist(), e1.tolist(),
